@@ -29,16 +29,22 @@ Section Strings.
   Variable pf : string -> bool.
   Notation marshal_str := (marshal_str quote_words pf).
 
-  (* tag, value, style of a marshalled string node *)
+  (* tag, value, style of a marshalled string node.  Style: single-quoted when ParseFloat accepts the text or it is a
+     quoting word; otherwise double-quoted with the block bits cleared when the guard of fix 9b9d633 fires (unquoted,
+     contains [block_contains], starts with one of [block_prefixes]); otherwise the style it had *)
   Theorem marshal_str_facts s v :
     (y_tag (marshal_str s v) = "" \/ y_tag (marshal_str s v) = tag_str)
     /\ y_value (marshal_str s v) = v
     /\ (needs_quote quote_words pf v = true -> y_style (marshal_str s v) = st_single)
-    /\ (needs_quote quote_words pf v = false -> y_style (marshal_str s v) = y_style (base_meta s)).
+    /\ (needs_quote quote_words pf v = false ->
+        y_style (marshal_str s v) =
+        if block_guard (y_style (base_meta s)) v then force_double (y_style (base_meta s)) else y_style (base_meta s)).
   Proof.
     split; [apply marshal_str_tag|]. split; [apply marshal_str_value|].
-    unfold YamlTree.marshal_str. destruct (norm_tag_comments tag_str (base_meta s)) as (_ & _ & _ & _ & Hst).
-    destruct (needs_quote quote_words pf v); split; intros H; try discriminate; cbn; auto.
+    rewrite (marshal_str_style quote_words pf). unfold str_style.
+    destruct (needs_quote quote_words pf v); split; intros H; try discriminate; [|reflexivity].
+    (* single-quoted: the guard's first test fails *)
+    unfold block_guard. reflexivity.
   Qed.
 
   (* a string node decoded from YAML keeps an explicit string tag whatever its text is: the text of a decrypted
@@ -46,9 +52,8 @@ Section Strings.
   Theorem marshal_str_yaml_tagged m v :
     String.eqb (y_tag m) "" = false -> y_tag (marshal_str (SynYaml m) v) = tag_str.
   Proof.
-    intros Hm. unfold YamlTree.marshal_str, norm_tag. cbn [base_meta]. rewrite Hm. cbn [negb andb].
-    destruct (String.eqb (y_tag m) tag_str) eqn:E; cbn [negb];
-      destruct (needs_quote quote_words pf v); cbn; try reflexivity; now apply eqb_true_s.
+    intros Hm. rewrite (marshal_str_tag_eq quote_words pf). unfold norm_tag. cbn [base_meta]. rewrite Hm. cbn [negb andb].
+    destruct (String.eqb (y_tag m) tag_str) eqn:E; cbn [negb]; [now apply eqb_true_s|reflexivity].
   Qed.
 
   (* an untagged synthesised string whose first character is outside yaml.v3's resolver table is read back as
